@@ -332,6 +332,111 @@ def rule_cache_identity(chk, db, cfgname, rid):
     chk.count(rid.lower() + '.opnode_sites', n)
 
 
+GROW = {'push_back', 'emplace_back'}
+SHRINK = {'erase', 'resize', 'pop_back', 'clear'}
+
+
+def rule_coindexed(chk, db, cfgname, rid):
+    chk.rule(rid, 'a local array built element-by-element from another local container (B[k] describes A[k]) and kept '
+             'across iterations of a loop is restructured together with it: every grow / shrink / element swap applied '
+             'to A inside that loop has a counterpart on B in the same block (otherwise B[k] describes the wrong '
+             'operand afterwards)')
+    n = 0
+    for f in db.functions.values():
+        if not f.get('blocks') or not f['file'].startswith('src/csg_tree'):
+            continue
+        g = C.Cfg(f)
+        loops = g.loops()
+        if not loops:
+            continue
+        # range-for element variables -> container
+        rng = {}
+        elem = {}
+        for b in f['blocks']:
+            for e in b['ev']:
+                if e.get('k') == 'decl':
+                    for v in e['vars']:
+                        if v.get('init') is None:
+                            continue
+                        i = T.strip_copy(v['init'])
+                        if v['n'].startswith('__range'):
+                            r = T.root_of(i)
+                            if r is not None and r.get('k') == 'var':
+                                rng[v['n']] = r['n']
+                        elif i.get('k') == 'call' and i.get('op') == '*' and i.get('recv') is not None:
+                            r = T.strip_copy(i['recv'])
+                            if r.get('k') == 'var' and r['n'].startswith('__begin'):
+                                elem[v['n']] = '__range' + r['n'][len('__begin'):]
+        elem = {k: rng.get(v) for k, v in elem.items() if rng.get(v)}
+        decl_block = {}
+        for b in f['blocks']:
+            for e in b['ev']:
+                if e.get('k') == 'decl':
+                    for v in e['vars']:
+                        decl_block[v['n']] = b['id']
+        # derived pairs: B.push_back(expr mentioning an element of A)
+        pairs = set()
+        for b in f['blocks']:
+            for e in b['ev']:
+                if e.get('k') == 'call' and T.short(e.get('fn', '')) in GROW and e.get('recv') is not None and e.get('args'):
+                    rb = T.root_of(T.strip_copy(e['recv']))
+                    if rb is None or rb.get('k') != 'var':
+                        continue
+                    # B.push_back(elem.Describe()): the pushed value is computed *from* the element (a method call
+                    # on it), it is not the element itself being moved or copied elsewhere
+                    top = T.strip_copy(e['args'][0])
+                    while top.get('k') in ('mtemp', 'bindtemp') and 'e' in top:
+                        top = T.strip_copy(top['e'])
+                    if top.get('k') == 'call' and top.get('recv') is not None and top.get('op') not in ('[]', '*'):
+                        r0 = T.root_of(T.strip_copy(top['recv']))
+                        if r0 is not None and r0.get('k') == 'var':
+                            a = elem.get(r0['n'])
+                            if a and a != rb['n']:
+                                pairs.add((a, rb['n']))
+        for (A, B) in sorted(pairs):
+            # loops in which A is restructured and which B's declaration encloses (B lives across iterations)
+            for h, body in loops.items():
+                if decl_block.get(B) in body or decl_block.get(A) in body:
+                    continue
+                for b in f['blocks']:
+                    if b['id'] not in body:
+                        continue
+                    kinds = {'A': set(), 'B': set()}
+                    lines = {}
+                    for e in b['ev']:
+                        if e.get('k') != 'call':
+                            continue
+                        m = T.short(e.get('fn', ''))
+                        if m == 'swap' and len(e.get('args', [])) == 2:
+                            roots = {(T.root_of(T.strip_copy(x)) or {}).get('n') for x in e['args']}
+                            for nm, key in ((A, 'A'), (B, 'B')):
+                                if roots == {nm}:
+                                    kinds[key].add('swap')
+                                    lines[(key, 'swap')] = e.get('ln')
+                        elif e.get('recv') is not None and (m in GROW or m in SHRINK):
+                            r = T.root_of(T.strip_copy(e['recv']))
+                            if r is not None and r.get('k') == 'var' and T.strip_copy(e['recv']).get('k') == 'var':
+                                for nm, key in ((A, 'A'), (B, 'B')):
+                                    if r['n'] == nm:
+                                        kk = 'grow' if m in GROW else 'shrink'
+                                        kinds[key].add(kk)
+                                        lines[(key, kk)] = e.get('ln')
+                    for kk in sorted(kinds['A']):
+                        n += 1
+                        ok = kk in kinds['B']
+                        chk.obligation(ok, {'function': f['name'][:60], 'line': lines.get(('A', kk)),
+                                            'arrays': '%s[k] describes %s[k]' % (B, A), 'operation on ' + A: kk,
+                                            'mirrored on ' + B: ok})
+                        if not ok:
+                            chk.violation(rid, f, '%s of %s not mirrored on %s' % (kk, A, B),
+                                          '%s is built element-by-element from %s and both live across iterations of '
+                                          'the loop, but a %s of %s at line %s has no counterpart on %s in the same '
+                                          'block: afterwards %s[k] no longer describes %s[k]'
+                                          % (B, A, kk, A, lines.get(('A', kk)), B, B, A),
+                                          line=lines.get(('A', kk)), cfg=cfgname)
+    chk.count(rid.lower() + '.coindexed_operations', n)
+
+
 def main(chk, tier):
     import db as D
     configs = ['seq', 'par'] if tier == 'quick' else ['seq', 'par', 'seq-debug']
@@ -348,6 +453,7 @@ def main(chk, tier):
         rule_operand_order(chk, db, cfgname, tab, 'C03.4')
         rule_protocol(chk, db, cfgname, 'C03.5')
         rule_cache_identity(chk, db, cfgname, 'C03.6')
+        rule_coindexed(chk, db, cfgname, 'C03.7')
     n = len(configs)
     chk.floor('c03.1.products', 6 * n)
     chk.floor('c03.4.reorder_events', 3 * n)
